@@ -179,12 +179,14 @@ def run(prog, R):
         R.ob("C15.2-invalid-ident-only-for-emoji", b.npath.split("::")[-1], not badp, b.at, "every path into fake_ident_or_unknown_prefix has is_emoji_char(next) == true on a non-ASCII character" if not badp else
              f"a path turns an identifier into InvalidIdent without the next character being an emoji: {badp[:2]}")
     R.floor("paths into fake_ident_or_unknown_prefix", nfake, 2)
+    R.premises(prog, "C15.1-token-length-premise", ["C14:C14.2-token-construction"], "the text of each classified token is the slice between consecutive offsets, which are sums of the token lengths: Token::new stores the scanned length unchanged (a narrowed length shifts the text of every token after a very long comment or string)")
     R.premises(prog, "C15.3-unit-table-premise", ["C10:C10.1-"], "a number directly followed by a unit is split into number + identifier by the same unit table that validation and the AST accessor use")
     import scanners
     scanners.exponent_markers(prog, R, "C15.3-exponent-markers")
     scanners.leading_zero_check(prog, R, "C15.3-leading-zero-continues")
     scanners.keyword_prefix_check(prog, R, "C15.2-keyword-prefix-consumption")
     scanners.pound_arm_check(prog, R, "C15.2-pound-words")
+    scanners.at_arm_check(prog, R, "C15.2-at-sign")
     scanners.line_bounded_check(prog, R, "C15.4-line-bounded")
     scanners.whitespace_check(prog, R, "C15.5-whitespace-class")
     # word-like lexer directives (`OPENQASM`, `pragma`, `#pragma`) are recognised only when whitespace follows the
@@ -238,6 +240,15 @@ def run(prog, R):
             badu = [u for u in upd if sum(1 for b_ in inloop_bumps if b_ in dom[u]) < 2]
             R.ob("C15.4-block-comment-nesting", "depth changes only after both characters of `/*` / `*/` are consumed", len(upd) >= 2 and not badu, bcm.at,
                  f"{len(upd)} depth updates in the loop, each dominated by the loop's bump and a second bump" if len(upd) >= 2 and not badu else f"{len(badu)} of {len(upd)} depth update(s) are not preceded by the consumption of the marker's second character")
+            # ... and a second character is consumed only after it was peeked: every bump in the loop other than the
+            # loop's own (the one all other loop blocks are dominated by) is dominated by a Cursor::first() call of the
+            # same iteration.  A character consumed unseen may be the first character of the next marker (`**/`).
+            firsts = [bi for bi, t in bcm.calls() if (bcm.callee_of(t) or "").endswith("Cursor::first") and bi in blocks]
+            own = [b_ for b_ in inloop_bumps if all(b_ in dom[o] for o in inloop_bumps)]
+            unseen = [b_ for b_ in inloop_bumps if b_ not in own and not any(f_ in dom[b_] for f_ in firsts)]
+            R.ob("C15.4-block-comment-peek", "inside a block comment a second character is consumed only after first() looked at it", len(own) == 1 and len(inloop_bumps) >= 3 and not unseen, bcm.at,
+                 f"{len(inloop_bumps)} bumps in the loop: the loop's own and {len(inloop_bumps) - len(own)} each dominated by a first() peek" if len(own) == 1 and not unseen else
+                 f"bump(s) in bb{unseen} consume a character that was never peeked (loop's own bump: bb{own}): in `**/` the second `*` is swallowed as the character after the first one, so the comment is not closed where the same comment written `* */` is")
     # version header: all the whitespace between `OPENQASM` and the version number belongs to the header token
     # (any amount, any flavour): openqasm_version() is dominated by eat_while(is_whitespace)
     if at:
